@@ -12,6 +12,7 @@ package evalfilter
 // Everything here is bounded: RAC_N programs of nesting depth <= RAC_DEPTH from seed VERIF_SEED.
 
 import (
+	"math"
 	"context"
 	"encoding/json"
 	"fmt"
@@ -113,6 +114,7 @@ func racObject(bits int, shape int) (map[string]interface{}, map[string]rval, st
 	}
 	obj["L"], obj["S"], obj["H"] = L, S, H
 	obj["F"] = []float64{2.5, 0.1, 1e16}[shape]
+	obj["Q"] = math.NaN()
 	var rl []rval
 	for _, x := range L {
 		rl = append(rl, rInt(int64(x)))
@@ -427,6 +429,9 @@ func genExtended(r *rand.Rand, maxDepth, maxSize int) (string, []string) {
 		// the same pooled literal (floats, integers above the immediate range) more than once, with and without a sign
 		"trace(2.5 || -2.5);\n", "if ( -2.5 || 2.5 ) { trace(31); }\n", "v0 = -70000;\nif ( 70000 ) { trace(32); }\n", "trace(-1.5 * 2);\ntrace(1.5);\n", "trace(70000 + -70000);\n",
 		"function gn() { return -2.5; }\ntrace(gn());\ntrace(2.5);\n", "trace(-(2.5));\ntrace(2.5 > 0);\n", "trace(!2.5);\ntrace(2.5);\n",
+		// comparisons with a NaN are all false: a negated comparison is not the opposite comparison
+		"trace(!(Q < 1));\n", "if ( !(Q >= 1) ) { trace(41); }\n", "trace(!(Q == Q));\n", "trace(!(F > Q) ? 1 : 2);\n", "v0 = !(Q <= N) ? 3 : 4;\n", "while ( !(Q > 0) ) { trace(42); return 1; }\n",
+		"trace(!(N < 1));\n", "trace(!(S == \"q\"));\n", "if ( !(M != 5) ) { trace(43); }\n", "trace(!(S ~= /b/));\n", "trace(!(S !~ /b/));\n",
 		// float arithmetic does not re-associate
 		"trace(0.1 * 3 * 5);\n", "trace(0.1 + 0.2 + 0.3);\n", "trace(10000000000000000.0 + 1 + 1);\n", "trace(F + 1 + 1);\n", "trace(F * 3 * 5);\n",
 	}
@@ -710,6 +715,24 @@ func TestRAC_C18(t *testing.T) {
 			break
 		}
 	}
+	// function definitions in unusual places
+	for _, src := range []string{
+		"switch ( function f() { return \"a\" + \"b\"; } ) { default { return f(); } }",
+		"if ( true ) { function h() { return \"e\" + \"f\"; } } return h();",
+		"while ( false ) { function k() { return \"z\" + N; } } return k();",
+		"foreach x in [1] { function m() { return \"q\" + \"r\"; } } return m();",
+		"function outer() { function inner() { return \"i\" + \"j\"; } return inner(); } return outer();",
+		"a = 1; a = 2; function late() { return \"l\" + a; } b = 3; c = \"x\"; return late() + c;",
+		"switch ( N ) { case 1 { function c1() { return \"one\"; } } default { function d1() { return \"dflt\"; } } } return d1();",
+		"v = true ? 1 : 2; function t() { return \"t\" + v; } return t();",
+		strings.Repeat("a = 1;", 3) + "function f3() { return 42; } b = 2; c = 3; d = 4; return f3();",
+		strings.Repeat("a = 1;", 9) + "function f9() { return 42; } b = 2; c = 3; d = 4; return f9();",
+	} {
+		rep.Programs++
+		if v := checkC18(src, rep); v != nil && len(rep.Violations) < 12 {
+			rep.Violations = append(rep.Violations, *v)
+		}
+	}
 	// the 16-bit operand limits: a constant pool and a body that do not fit
 	for _, big := range []struct {
 		name string
@@ -815,6 +838,13 @@ func tryAPI(src string) (where string, what interface{}) {
 			}
 			return args[0]
 		})
+		// a host function may call back into the evaluator it was registered with while a run is going on
+		e.AddFunction("reenter", func(args []object.Object) object.Object {
+			e.SetVariable("seen", &object.Integer{Value: 1})
+			v := e.GetVariable("seen")
+			e.AddFunction("later", func(args []object.Object) object.Object { return &object.Void{} })
+			return v
+		})
 		ctx, cancel := context.WithTimeout(context.Background(), 500*time.Millisecond)
 		e.SetContext(ctx)
 		where = fmt.Sprintf("Prepare(optimize=%v)", optimize)
@@ -872,8 +902,21 @@ func TestRAC_C08(t *testing.T) {
 	r := rand.New(rand.NewSource(int64(seed) + 8000))
 	n := envInt("RAC_N", 3000)
 	seen := map[string]bool{}
+	// function definitions in places where they are legal but unusual (their bodies are compiled into a buffer of
+	// their own while the surrounding construct is being compiled)
+	oddDefinitions := []string{
+		"switch ( function f() { return \"a\" + \"b\"; } ) { default { return f(); } }",
+		"if ( true ) { function h() { return \"e\" + \"f\"; } } return h();",
+		"while ( false ) { function k() { return \"z\" + N; } } return k();",
+		"foreach x in [1] { function m() { return \"q\" + \"r\"; } } return m();",
+		"function outer() { function inner() { return \"i\" + \"j\"; } return inner(); } return outer();",
+		"a = 1; a = 2; function late() { return \"l\" + a; } b = 3; c = \"x\"; return late() + c;",
+		"switch ( N ) { case 1 { function c1() { return \"one\"; } } default { function d1() { return \"dflt\"; } } } return d1();",
+		"v = true ? 1 : 2; function t() { return \"t\" + v; } return t();",
+	}
+	_ = oddDefinitions
 	// scripts which touch the names the engine keeps its own settings under
-	settings := []string{"DEBUG = 0;", "OPTIMIZE = 0;", "DEBUG = \"x\"; return 1;", "OPTIMIZE = [1]; return OPTIMIZE;", "DEBUG = 1.5; return DEBUG;", "DEBUG = false; OPTIMIZE = false;", "return DEBUG;",
+	settings := []string{"v = reenter(); later(); return v;", "foreach x in [1, 2] { reenter(); } return seen;", "DEBUG = 0;", "OPTIMIZE = 0;", "DEBUG = \"x\"; return 1;", "OPTIMIZE = [1]; return OPTIMIZE;", "DEBUG = 1.5; return DEBUG;", "DEBUG = false; OPTIMIZE = false;", "return DEBUG;",
 		"function DEBUG() { return 1; } return DEBUG();", "foreach DEBUG in [1, 2] { } return 1;", "OPTIMIZE++; return 1;", "DEBUG += 1;", "local DEBUG;",
 		// deep trees built without nesting in the text: the tree is walked recursively after parsing (an
 		// overflowing stack is fatal, the harness then ends with "did not complete")
@@ -885,6 +928,7 @@ func TestRAC_C08(t *testing.T) {
 		"return " + strings.Repeat("if ( a ) { ", 40) + "1" + strings.Repeat(strings.Repeat("+1", 32000)+"; }", 40) + strings.Repeat("+1", 32000) + ";",
 		"return " + strings.Repeat("[", 40) + "1" + strings.Repeat(strings.Repeat("+1", 32000)+"]", 40) + strings.Repeat("[0]", 32000) + ";",
 		"return id(" + strings.Repeat("id(1"+strings.Repeat("+1", 30000)+", ", 30) + "1" + strings.Repeat(")", 30) + strings.Repeat("+1", 30000) + ");"}
+	settings = append(settings, oddDefinitions...)
 	for i := -len(settings); i < n; i++ {
 		var src string
 		switch {
@@ -1172,6 +1216,140 @@ func TestRAC_C14(t *testing.T) {
 					}
 				}
 			}
+		}
+	}
+	// ---- string literals: the characters between the quotes after the escape rules, in either quote style
+	raws := []string{"abc", "", "a\\nb", "a\\tb", "a\\rb", "a\\\\b", "a\\qb", "a\\\nb", "a\r\nb", "a\nb", "a\tb", "λ→√ü", "  spaced  ", "a\\\r\nb", "//not a comment", "a // b", "#", "a\\0b", "1 + 2",
+		"it's", "say \"hi\"", "a\\\"b", "a\\'b", "\\\\", "x\\", "{ } ( ) ;", "/re/", "a\r\n\r\nb\r", "\r\n", "tab\\\tx"}
+	for _, raw := range raws {
+		for _, q := range []byte{'"', '\''} {
+			// the text is legal inside this quote style when it holds no unescaped quote of that style and does not end in a lone backslash
+			legal, esc := true, false
+			for i := 0; i < len(raw); i++ {
+				switch {
+				case esc:
+					esc = false
+				case raw[i] == '\\':
+					esc = true
+				case raw[i] == q:
+					legal = false
+				}
+			}
+			if !legal || esc {
+				continue
+			}
+			want := ""
+			rs := []rune(raw)
+			for i := 0; i < len(rs); i++ {
+				if rs[i] != '\\' {
+					want += string(rs[i])
+					continue
+				}
+				i++
+				switch rs[i] {
+				case 'n':
+					want += "\n"
+				case 'r':
+					want += "\r"
+				case 't':
+					want += "\t"
+				case '\n':
+					// backslash-newline: the literal continues on the next line
+				default:
+					want += string(rs[i])
+				}
+			}
+			src := "return " + string(q) + raw + string(q) + ";"
+			for _, optimize := range []bool{true, false} {
+				rep.Programs++
+				rep.Runs++
+				got := "error"
+				e := New(src)
+				var perr error
+				if optimize {
+					perr = e.Prepare()
+				} else {
+					perr = e.Prepare([]byte{NoOptimize})
+				}
+				if perr == nil {
+					if out, err := e.Execute(nil); err == nil {
+						got = showObj(out)
+					}
+				} else {
+					got = "rejected: " + perr.Error()
+				}
+				if got != "STRING:"+want && len(rep.Violations) < 16 {
+					rep.Violations = append(rep.Violations, racVio{Kind: "string-literal", Script: src, Input: fmt.Sprintf("optimize=%v", optimize), Expected: fmt.Sprintf("%q", "STRING:"+want), Got: fmt.Sprintf("%q", got)})
+				}
+			}
+		}
+	}
+	// ---- numeric literals denote their decimal value
+	for _, lit := range []string{"0", "7", "007", "42", "0100", "010", "08", "9223372036854775807", "65535", "65536", "32768", "1.5", "1.05", "0.001", "12.0625", "10.50", "0.0", "3.14159", "100.001", "00.5", "1.00", "0.1", "1.010", "0.05", "123456789.000001"} {
+		want := ""
+		if strings.Contains(lit, ".") {
+			f, _ := strconv.ParseFloat(lit, 64)
+			want = showObj(&object.Float{Value: f})
+		} else {
+			i, _ := strconv.ParseInt(lit, 10, 64)
+			want = showObj(&object.Integer{Value: i})
+		}
+		for _, form := range []string{"return %s;", "return [%s][0];", "v = %s; return v;", "return 0 + %s;"} {
+			src := fmt.Sprintf(form, lit)
+			w := want
+			for _, optimize := range []bool{true, false} {
+				rep.Programs++
+				rep.Runs++
+				got := "error"
+				e := New(src)
+				var perr error
+				if optimize {
+					perr = e.Prepare()
+				} else {
+					perr = e.Prepare([]byte{NoOptimize})
+				}
+				if perr == nil {
+					if out, err := e.Execute(nil); err == nil {
+						got = showObj(out)
+					}
+				}
+				if got != w && len(rep.Violations) < 16 {
+					rep.Violations = append(rep.Violations, racVio{Kind: "numeric-literal", Script: src, Input: fmt.Sprintf("optimize=%v", optimize), Expected: w, Got: got})
+				}
+			}
+		}
+	}
+	// ---- layout and comments between tokens mean nothing: the generated programs hold one statement per line
+	lr := rand.New(rand.NewSource(int64(rep.Seed) + 14000))
+	for i := 0; i < 150*envInt("RAC_N", 1); i++ {
+		src, watch := genExtended(lr, 1+i%3, 10)
+		fillers := []string{"\n\n", " \n\t", " // c\n", "\n// x y \"z\" /q/ { (\n", "\r\n", "\n \n \n", " //\n"}
+		var sb strings.Builder
+		for _, ch := range src {
+			if ch == '\n' {
+				sb.WriteString(fillers[lr.Intn(len(fillers))])
+			} else {
+				sb.WriteRune(ch)
+			}
+		}
+		alt := sb.String()
+		rep.Programs++
+		a, errA := newRacEval(src, true)
+		b, errB := newRacEval(alt, true)
+		if (errA == nil) != (errB == nil) {
+			if len(rep.Violations) < 16 {
+				rep.Violations = append(rep.Violations, racVio{Kind: "layout-changes-acceptance", Script: alt, Expected: fmt.Sprint("as written first: ", errA), Got: fmt.Sprint("with other layout and comments: ", errB)})
+			}
+			continue
+		}
+		if errA != nil {
+			continue
+		}
+		obj, _, desc := racObject(5, 2)
+		oa, ob := a.run(obj, watch), b.run(obj, watch)
+		rep.Runs += 2
+		if !sameObserved(oa, ob, true) && len(rep.Violations) < 16 {
+			rep.Violations = append(rep.Violations, racVio{Kind: "layout-changes-meaning", Script: alt, Input: desc, Expected: oa.String(), Got: ob.String()})
 		}
 	}
 	for _, v := range rep.Violations {
